@@ -165,3 +165,46 @@ def run(case, out):
         elif got != want:
             d = sorted(got ^ want, key=lambda w: (len(w), w))
             out.fail("substitute:language", word=list(d[0]), want=d[0] in want)
+
+    # ---- simultaneous substitution of two terminals: the grammar put in place of one may use the other as an
+    # ordinary letter, which must stay (both insertion orders of the dictionary)
+    ta = ca["terms"]
+    if len(ta) >= 2:
+        t1, t2 = ta[0], ta[1]
+        k1, k2 = G.key(t1), G.key(t2)
+        # third operand: a tiny grammar over {t1} U its own letters, derived from b by renaming a terminal to t1
+        cc = dict(cb, prods=[[h, [t1 if x == cb["terms"][0] else x for x in bd]] for h, bd in cb["prods"]],
+                  terms=sorted({t1 if x == cb["terms"][0] else x for x in cb["terms"]})) if cb["terms"] else cb
+        rc = G.ref_of(cc)
+        lc = rc.words_upto(n)
+        if () in lb or () in lc:
+            return      # a nullable replacement needs an unbounded window of the source: covered above only
+        want2 = set()
+        for w in la:
+            cur = {()}
+            for x in w:
+                if x == k1:
+                    cur = _cat(cur, lb, n)
+                elif x == k2:
+                    cur = _cat(cur, lc, n)
+                else:
+                    cur = {u + (x,) for u in cur if len(u) < n}
+                if not cur:
+                    break
+            want2 |= cur
+        out.probe("two_key_substitution")
+        if k1 in {x for w in lc for x in w}:
+            out.probe("replacement_uses_another_substituted_terminal")
+        for order in ((t1, t2), (t2, t1)):
+            a, b = objs()
+            c = G.build(cc)
+            d = {}
+            for t in order:
+                d[Terminal(t)] = b if t == t1 else c
+            res = out.call("substitute(2 keys)", a.substitute, d)
+            if res is FAILED:
+                continue
+            got = G.extract(res).words_upto(n)
+            if got != want2:
+                dd = sorted(got ^ want2, key=lambda w: (len(w), w))
+                out.fail("substitute(2 keys):language", word=list(dd[0]), want=dd[0] in want2, order=list(order))
